@@ -64,6 +64,18 @@ inductive EvoVol where
   | other
   deriving Repr, Inhabited
 
+/-- The volume argument flattened as `Labware.remove/add` receive it. -/
+def EvoVol.toList : EvoVol → List Rat
+  | .list l => l
+  | .scalar v => [v]
+  | .other => []
+
+/-- The volume argument as an array-like (`numpy.array(volume)`). -/
+def EvoVol.toArr : EvoVol → Arr Rat
+  | .list vs => .vec vs
+  | .scalar v => .scalar v
+  | .other => .vec []
+
 structure EvoADArgs where
   wells : Arr String
   wellsBad : Bool := false        -- not str/list/tuple/ndarray
@@ -120,6 +132,37 @@ def strictlyAscending (ks : List (List Nat)) : Bool :=
   | a :: b :: rest => decide (a < b) && strictlyAscending (b :: rest)
   | _ => true
 
+/-- Range check of one volume (`prepare_evo_aspirate_dispense_parameters`). -/
+def evoCheckVol (maxVolume : Rat) (v : Rat) : Except Err Unit :=
+  if v < 0 ∨ (Spec.maxRecordVolume : Rat) < v then .error .valueErr
+  else if maxVolume < v then .error .invalidOp else .ok ()
+
+/-- The per-tip volume list: a list is checked element-wise and must have one entry per tip; a scalar
+    is replicated once per well. -/
+def evoVols (a : EvoADArgs) (nWells : Nat) (maxVolume : Rat) : Except Err (List Rat) :=
+  match a.volume with
+  | .list l => do
+    l.forM (evoCheckVol maxVolume)
+    if l.length ≠ a.tips.length then throw .reject
+    pure l
+  | .scalar v => do
+    evoCheckVol maxVolume v
+    pure (List.replicate nWells v)
+  | .other => throw .valueErr
+
+/-- Tip values (`Tip` members as their value, ints through `int_to_tip`). -/
+def evoTipVals (tips : List TipSym) : Except Err (List Int) :=
+  tips.mapM fun t => match t with
+    | .int n => do let v ← intToTip n; pure (v : Int)
+    | .member v => pure v
+    | .bad => throw .valueErr
+
+/-- `(row, column)` of every well ID in the labware's ID grid. -/
+def evoSel (wells : List String) (nRows nCols : Nat) : Except Err (List (Nat × Nat)) :=
+  wells.mapM fun w => match (makeWellIndexDict nRows nCols).lookup w with
+    | some rc => pure rc
+    | none => throw Err.reject
+
 /-- `prepare_evo_aspirate_dispense_parameters` followed by the command construction.
     `rowsIds`, `cols`: `labware.n_rows`, `labware.n_columns`. -/
 def evoAD (isAsp : Bool) (a : EvoADArgs) (nRows nCols : Nat) (maxVolume : Rat) :
@@ -129,24 +172,10 @@ def evoAD (isAsp : Bool) (a : EvoADArgs) (nRows nCols : Nat) (maxVolume : Rat) :
   if wellsList.length ≠ a.tips.length then throw .valueErr
   if a.gridBad ∨ a.grid < 1 ∨ (Spec.maxGrid : Int) < a.grid then throw .valueErr
   if a.siteBad ∨ a.site < 1 ∨ (Spec.maxSite : Int) < a.site then throw .valueErr
-  let checkVol (v : Rat) : Except Err Unit :=
-    if v < 0 ∨ (Spec.maxRecordVolume : Rat) < v then .error .valueErr
-    else if maxVolume < v then .error .invalidOp else .ok ()
-  let vols : List Rat ← match a.volume with
-    | .list l => do
-      l.forM checkVol
-      if l.length ≠ a.tips.length then throw .reject
-      pure l
-    | .scalar v => do
-      checkVol v
-      pure (List.replicate wellsList.length v)
-    | .other => throw .valueErr
+  let vols ← evoVols a wellsList.length maxVolume
   if a.liquidClass.toList.contains ';' then throw .valueErr
   if a.tips.any (fun t => t == TipSym.bad) then throw .valueErr
-  let tipVals : List Int ← a.tips.mapM fun t => match t with
-    | .int n => do let v ← intToTip n; pure (v : Int)
-    | .member v => pure v
-    | .bad => throw .valueErr
+  let tipVals ← evoTipVals a.tips
   if ¬(a.arm = 0 ∨ a.arm = 1) then throw .valueErr
   -- distinct concrete tips, wells strictly ascending
   if tipVals.contains (-1) then throw .valueErr
@@ -154,15 +183,20 @@ def evoAD (isAsp : Bool) (a : EvoADArgs) (nRows nCols : Nat) (maxVolume : Rat) :
   if (dedup tv).length ≠ tv.length then throw .valueErr
   if !strictlyAscending (wellsList.map fun s => s.toList.map Char.toNat) then throw .valueErr
   -- selection
-  let dict := makeWellIndexDict nRows nCols
-  let sel ← wellsList.mapM fun w => match dict.lookup w with
-    | some rc => pure rc
-    | none => throw Err.reject
+  let sel ← evoSel wellsList nRows nCols
   let usedCols := dedup (sel.map (·.2))
   if 2 ≤ usedCols.length then throw .valueErr
   pure { isAsp := isAsp, tipSel := tv.foldl (· + ·) 0, liquidClass := a.liquidClass,
          slots := fillSlots tv (vols.map round2), grid := a.grid.toNat, site := (a.site - 1).toNat,
          rows := nRows, cols := nCols, bits := selectionBits nRows nCols sel, arm := a.arm.toNat }
+
+/-- EVOware's reading of an Aspirate/Dispense command (independent of how it was built): the selected
+    wells, taken in ascending position (column-major) order, are served by the selected tips in
+    ascending order; each selected tip carries the volume (hundredths) of its slot. -/
+def EvoADFields.decode (f : EvoADFields) : List ((Nat × Nat) × Int) :=
+  let wells := (List.range f.cols).flatMap fun x => (List.range f.rows).filterMap fun y =>
+    if f.bits.getD (x * f.rows + y) false then some (y, x) else none
+  wells.zip (f.slots.filterMap id)
 
 /-! ## Wash command -/
 
@@ -219,11 +253,15 @@ def volIn (a : Option PyNum) : Except Err PyNum :=
   | none => .error .valueErr
   | some n => if n.q < 0 ∨ 100 < n.q then .error .valueErr else .ok (roundTenth n)
 
-def evoWash (a : EvoWashArgs) : Except Err EvoWashFields := do
-  let tipVals : List Int ← a.tips.mapM fun t => match t with
+/-- Tip values of the `tips` argument of `evo_wash` (a non-`Tip`, non-int element is an AttributeError). -/
+def evoWashTipVals (tips : List TipSym) : Except Err (List Int) :=
+  tips.mapM fun t => match t with
     | .int n => do let v ← intToTip n; pure (v : Int)
     | .member v => pure v
     | .bad => throw .reject
+
+def evoWash (a : EvoWashArgs) : Except Err EvoWashFields := do
+  let tipVals : List Int ← evoWashTipVals a.tips
   -- distinct concrete tips
   if tipVals.contains (-1) then throw .valueErr
   if (dedup (tipVals.map Int.toNat)).length ≠ tipVals.length then throw .valueErr
